@@ -357,6 +357,12 @@ theorem embedded_rdwr_refused (sh : Shim) (w : World) (hk : sh.fileoffset > 0) (
     (openFileEmbed sh w).err = .noEmbeddedRdwr := by
   simp [openFileEmbed, hk, hm, failOpen]
 
+/-- KF-C14-EMBED-MIN44: an embedded read is refused when `filelength` (at that point: the size of the whole descriptor)
+    is below 44 — the size of a WAV header, whatever the container -/
+theorem embedded_short_descriptor_refused (sh : Shim) (w : World) (hk : sh.fileoffset > 0) (hm : sh.mode = .r)
+    (hl : sh.filelength < 44) : (openFileEmbed sh w).err = .badOffset := by
+  simp [openFileEmbed, hk, hm, hl, failOpen]
+
 /-- the embedding whitelist: with fileoffset > 0 the open survives iff the container is WAV, WAVEX, AIFF, AU (MPEG, FLAC) -/
 theorem embedded_whitelist (sh : Shim) (w : World) (major : Nat) (hk : sh.fileoffset > 0) :
     (openFileTail sh w major).err = .none ↔ major ∈ embedWhitelist := by
